@@ -1,12 +1,12 @@
 // C16 harness: direct and dense kernels at the exact rational type Q (and QR additionally at double).
 // Ops (the same text is fed to the Lean model, lean/Amgcl/Driver/Direct.lean):
-//   sky_solve  kind A perm b y0 x0     real amgcl::solver::skyline_lu<Q>            (kind 0: default Cuthill-McKee ordering,
-//   skyb_solve kind A perm b y0 x0     real skyline_lu<static_matrix<Q,2,2>>         kind 1: ordering class returning `perm`)
-//   inv_dense n A t p                   real amgcl::detail::inverse<Q>(n, A, t, p)
+//   direct_sky_solve  kind A perm b y0 x0     real amgcl::solver::skyline_lu<Q>            (kind 0: default Cuthill-McKee ordering,
+//   direct_skyb_solve kind A perm b y0 x0     real skyline_lu<static_matrix<Q,2,2>>         kind 1: ordering class returning `perm`)
+//   direct_inv_dense n A t p                   real amgcl::detail::inverse<Q>(n, A, t, p)
 //   (static_matrix ops: harness/h_direct_sm.cpp)
-//   cmk_check rev A perm                real amgcl::reorder::cuthill_mckee<rev>::get   (perm = its output, embedded by generate)
-//   qr_check arith order m n A Qk R     real amgcl::detail::QR<Q|double>::factorize    (Qk, R = its output, embedded by generate)
-//   qr_solve_check arith order m n A b x   real QR<Q|double>::solve                    (x = its output, embedded by generate)
+//   direct_cmk_check rev A perm                real amgcl::reorder::cuthill_mckee<rev>::get   (perm = its output, embedded by generate)
+//   direct_qr_check arith order m n A Qk R     real amgcl::detail::QR<Q|double>::factorize    (Qk, R = its output, embedded by generate)
+//   direct_qr_solve_check arith order m n A b x   real QR<Q|double>::solve                    (x = its output, embedded by generate)
 // For the V-grade ops the op line carries the implementation's output; `execute` re-runs the real code and fails the
 // oracle if the embedded output is not what the code returns now.
 //
@@ -312,18 +312,18 @@ static Result execute(const Toks &t) {
     Cur c(t);
     const std::string &op = t[0];
     Result r;
-    if (op == "sky_solve") {
+    if (op == "direct_sky_solve") {
         long kind = c.nat(); if (kind < 0 || kind > 1) throw bad_input("kind");
         return kind == 0 ? run_sky<Q, SkyQ0>(c, kind) : run_sky<Q, SkyQ1>(c, kind);
-    } else if (op == "skyb_solve") {
+    } else if (op == "direct_skyb_solve") {
         long kind = c.nat(); if (kind < 0 || kind > 1) throw bad_input("kind");
         return kind == 0 ? run_sky<B22, SkyB0>(c, kind) : run_sky<B22, SkyB1>(c, kind);
-    } else if (op == "inv_dense") {
+    } else if (op == "direct_inv_dense") {
         long n = c.nat(); auto A = c.vec(); auto tw = c.vec(); auto p = c.natvec(); c.expect_end();
         if (n < 1 || (long)A.size() != n * n || (long)tw.size() != n * n || (long)p.size() != n) throw bad_input("shape");
         for (long v : p) if (v < 0) throw bad_input("p");
         Dense D = rm_dense(n, n, A);
-        r.tag("inv_dense"); r.nontrivial = n >= 2;
+        r.tag("direct_inv_dense"); r.nontrivial = n >= 2;
         if (dense_rank(D) < n) { r.out = "singular"; r.tag("singular"); return r; }
         std::vector<Q> A1 = A, t1 = tw; std::vector<int> p1(p.begin(), p.end());
         amgcl::detail::inverse<Q>((int)n, A1.data(), t1.data(), p1.data());
@@ -335,7 +335,7 @@ static Result execute(const Toks &t) {
         for (long i = 0; i < n * n; ++i) if (!qeq(A2[i], A1[i])) { r.fail("result depends on the old content of the workspaces t / p"); break; }
         bool pivoted = false; for (long i = 0; i < n; ++i) if (p1[i] != i) pivoted = true; if (pivoted) r.tag("row_exchange");
         Line l; l << A1 << t1; l << (size_t)n; for (int v : p1) l << (long)v; r.out = l.get();
-    } else if (op == "cmk_check") {
+    } else if (op == "direct_cmk_check") {
         long rev = c.nat(); auto A = c.mat(); auto perm = c.natvec(); c.expect_end();
         std::string why; if (rev < 0 || rev > 1 || A.n < 1 || A.m != A.n || !crs_wf(*A.crs(), why)) throw bad_input("shape");
         std::vector<long> actual = run_cmk(rev, A);
@@ -347,9 +347,9 @@ static Result execute(const Toks &t) {
         { long n = A.n; std::vector<std::vector<long>> adj(n); for (long i = 0; i < n; ++i) for (auto j = A.ptr[i]; j < A.ptr[i+1]; ++j) { adj[i].push_back(A.col[j]); adj[A.col[j]].push_back(i); }
           std::vector<char> seen(n, 0); std::vector<long> st{0}; seen[0] = 1; long cnt = 1; while (!st.empty()) { long u = st.back(); st.pop_back(); for (long v : adj[u]) if (!seen[v]) { seen[v] = 1; ++cnt; st.push_back(v); } }
           r.tag(cnt == n ? "connected" : "disconnected"); }
-    } else if (op == "qr_check") {
+    } else if (op == "direct_qr_check") {
         return run_qr_check(c);
-    } else if (op == "qr_solve_check") {
+    } else if (op == "direct_qr_solve_check") {
         return run_qr_solve_check(c);
     } else {
         r.out = "bad-op";
@@ -404,11 +404,11 @@ static void emit_sky(Rng &rng, std::vector<std::string> &lines, Mat A, int order
     long n = A.n; if (rng.coin(1, 3)) { auto rows = to_rows(A); shuffle_rows_inplace(rng, rows); A = from_rows(n, n, rows); }
     std::vector<long> perm; long kind = 1;
     if (ordering == 0) {
-        { std::vector<long> id(n); std::iota(id.begin(), id.end(), 0); Line p; p << "sky_solve" << 0; put_mat(p, A); p << id << std::vector<Q>(n) << std::vector<Q>(n) << std::vector<Q>(n); pending(p.get()); }
+        { std::vector<long> id(n); std::iota(id.begin(), id.end(), 0); Line p; p << "direct_sky_solve" << 0; put_mat(p, A); p << id << std::vector<Q>(n) << std::vector<Q>(n) << std::vector<Q>(n); pending(p.get()); }
         perm = cmk_of(A); kind = 0; }
     else if (ordering == 1) { perm.resize(n); std::iota(perm.begin(), perm.end(), 0); }
     else if (ordering == 2) perm = random_perm(rng, n); else { perm.resize(n); for (long i = 0; i < n; ++i) perm[i] = n - 1 - i; }
-    Line l; l << "sky_solve" << kind; put_mat(l, A); l << perm << gen_vec(rng, n) << gen_vec(rng, n) << gen_vec(rng, n);
+    Line l; l << "direct_sky_solve" << kind; put_mat(l, A); l << perm << gen_vec(rng, n) << gen_vec(rng, n) << gen_vec(rng, n);
     lines.push_back(l.get());
 }
 // block matrix: a strictly row diagonally dominant (or SPD) scalar matrix of order 2n viewed as 2x2 blocks on a block pattern
@@ -434,12 +434,12 @@ static void emit_skyb(Rng &rng, std::vector<std::string> &lines, long n, const s
         A.ptr.push_back((ptrdiff_t)A.col.size()); }
     std::vector<long> perm; long kind = 1;
     if (ordering == 0) {
-        { std::vector<long> id(n); std::iota(id.begin(), id.end(), 0); Line p; p << "skyb_solve" << 0; put_bmat(p, A); p << id; for (int r3 = 0; r3 < 3; ++r3) { p << (size_t)n; put_zeros(p, 2 * n); } pending(p.get()); }
+        { std::vector<long> id(n); std::iota(id.begin(), id.end(), 0); Line p; p << "direct_skyb_solve" << 0; put_bmat(p, A); p << id; for (int r3 = 0; r3 < 3; ++r3) { p << (size_t)n; put_zeros(p, 2 * n); } pending(p.get()); }
         perm = cmk_of_b(A); kind = 0; } else if (ordering == 1) { perm.resize(n); std::iota(perm.begin(), perm.end(), 0); } else perm = random_perm(rng, n);
     // never emit a case on which math::inverse would be applied to a singular non-zero block (assert in detail::inverse)
     if (nopivot_outcome(expand(A, perm), 2) == 2) return;
     auto bv = [&]() { std::vector<B21> v(n); for (auto &x : v) { x(0) = rng.rat(5); x(1) = rng.rat(5); } return v; };
-    Line l; l << "skyb_solve" << kind; put_bmat(l, A); l << perm; put_rhsvec<B22>(l, bv()); put_rhsvec<B22>(l, bv()); put_rhsvec<B22>(l, bv());
+    Line l; l << "direct_skyb_solve" << kind; put_bmat(l, A); l << perm; put_rhsvec<B22>(l, bv()); put_rhsvec<B22>(l, bv()); put_rhsvec<B22>(l, bv());
     lines.push_back(l.get());
 }
 
@@ -460,14 +460,14 @@ static std::vector<Q> exact_root_matrix(Rng &rng, long m, long n, bool allow_def
 }
 static void emit_qr_check(std::vector<std::string> &lines, long arith, long order, long m, long n, const std::vector<Q> &A) {
     std::vector<Q> Qk, R;
-    { Line p; p << "qr_check" << arith << order << m << n; for (auto &v : A) p << v; put_zeros(p, m * std::min(m, n) + std::min(m, n) * n); pending(p.get()); }
+    { Line p; p << "direct_qr_check" << arith << order << m << n; for (auto &v : A) p << v; put_zeros(p, m * std::min(m, n) + std::min(m, n) * n); pending(p.get()); }
     if (arith == 0) { auto o = qr_factorize<Q>(order, m, n, A); Qk = o.Qk; R = o.R; } else { auto o = qr_factorize<double>(order, m, n, to_double(A)); Qk = from_double(o.Qk); R = from_double(o.R); }
-    Line l; l << "qr_check" << arith << order << m << n; for (auto &v : A) l << v; for (auto &v : Qk) l << v; for (auto &v : R) l << v; lines.push_back(l.get());
+    Line l; l << "direct_qr_check" << arith << order << m << n; for (auto &v : A) l << v; for (auto &v : Qk) l << v; for (auto &v : R) l << v; lines.push_back(l.get());
 }
 static void emit_qr_solve(std::vector<std::string> &lines, long arith, long order, long m, long n, const std::vector<Q> &A, const std::vector<Q> &b) {
-    { Line p; p << "qr_solve_check" << arith << order << m << n; for (auto &v : A) p << v; for (auto &v : b) p << v; put_zeros(p, n); pending(p.get()); }
+    { Line p; p << "direct_qr_solve_check" << arith << order << m << n; for (auto &v : A) p << v; for (auto &v : b) p << v; put_zeros(p, n); pending(p.get()); }
     std::vector<Q> x = arith == 0 ? qr_solve<Q>(order, m, n, A, b) : from_double(qr_solve<double>(order, m, n, to_double(A), to_double(b)));
-    Line l; l << "qr_solve_check" << arith << order << m << n; for (auto &v : A) l << v; for (auto &v : b) l << v; for (auto &v : x) l << v; lines.push_back(l.get());
+    Line l; l << "direct_qr_solve_check" << arith << order << m << n; for (auto &v : A) l << v; for (auto &v : b) l << v; for (auto &v : x) l << v; lines.push_back(l.get());
 }
 static std::vector<Q> transpose_rm(long m, long n, const std::vector<Q> &A) { std::vector<Q> T(m * n); for (long i = 0; i < m; ++i) for (long j = 0; j < n; ++j) T[j * m + i] = A[i * n + j]; return T; }
 
@@ -492,8 +492,8 @@ static void generate_inner(Rng &rng, const Opts &o, std::vector<std::string> &li
             if (n <= 2 || (n == 3 && (T || rng.coin(1, 4))) || (n == 4 && rng.coin(1, 64))) for (int mode = 0; mode < 3; ++mode) emit_skyb(rng, lines, n, pat, mode, (int)rng.range(0, 2));
             if (n <= 3 || rng.coin(1, 16)) {   // Cuthill-McKee on every small pattern, both variants
                 Mat A = pattern_matrix(rng, n, pat, 2);
-                for (long rev = 0; rev < 2; ++rev) { { Line p; p << "cmk_check" << rev; put_mat(p, A); p << std::vector<long>(); pending(p.get()); }
-                    Line l; l << "cmk_check" << rev; put_mat(l, A); l << run_cmk(rev, A); lines.push_back(l.get()); }
+                for (long rev = 0; rev < 2; ++rev) { { Line p; p << "direct_cmk_check" << rev; put_mat(p, A); p << std::vector<long>(); pending(p.get()); }
+                    Line l; l << "direct_cmk_check" << rev; put_mat(l, A); l << run_cmk(rev, A); lines.push_back(l.get()); }
             }
         }
     }
@@ -511,8 +511,8 @@ static void generate_inner(Rng &rng, const Opts &o, std::vector<std::string> &li
         // Cuthill-McKee on larger patterns (values irrelevant): non-symmetric, disconnected, empty rows
         { long nc = rng.range(1, T ? 60 : 30); Mat P = gen_sparse(rng, nc, nc, (int)rng.range(0, 30));
           if (rng.coin(1, 3)) P = pattern_matrix(rng, nc, random_pattern(rng, nc, (int)rng.range(3, 30), rng.coin(), rng.range(1, 4)), 2);
-          long rev = rng.range(0, 1); { Line p; p << "cmk_check" << rev; put_mat(p, P); p << std::vector<long>(); pending(p.get()); }
-          Line l; l << "cmk_check" << rev; put_mat(l, P); l << run_cmk(rev, P); lines.push_back(l.get()); }
+          long rev = rng.range(0, 1); { Line p; p << "direct_cmk_check" << rev; put_mat(p, P); p << std::vector<long>(); pending(p.get()); }
+          Line l; l << "direct_cmk_check" << rev; put_mat(l, P); l << run_cmk(rev, P); lines.push_back(l.get()); }
     }
     // ---- detail::inverse
     for (long k = 0; k < 80 * scale; ++k) {
@@ -528,7 +528,7 @@ static void generate_inner(Rng &rng, const Opts &o, std::vector<std::string> &li
         }
         if (dense_rank(rm_dense(n, n, A)) < n) continue;
         std::vector<long> p(n); for (auto &v : p) v = rng.range(0, 40);
-        Line l; l << "inv_dense" << n << A << gen_vec(rng, n * n) << p; lines.push_back(l.get());
+        Line l; l << "direct_inv_dense" << n << A << gen_vec(rng, n * n) << p; lines.push_back(l.get());
     }
     // ---- QR
     for (long k = 0; k < 40 * scale; ++k) {
@@ -553,14 +553,14 @@ static void generate_inner(Rng &rng, const Opts &o, std::vector<std::string> &li
           emit_qr_solve(lines, 1, order, mm, nn, B, dyadic_vals(rng, mm, 10)); }
     }
     // ---- malformed stream: both sides must answer bad-input
-    lines.push_back("sky_solve 1 2 2 1 0 1 1 1 1 2 0 0 2 1 1 2 0 0 2 0 0");              // perm (0,0) is not a permutation
-    lines.push_back("sky_solve 1 2 2 2 0 1 0 2 1 1 1 2 0 1 2 1 1 2 0 0 2 0 0");          // duplicate column in row 0
-    lines.push_back("sky_solve 1 2 3 1 0 1 1 1 1 2 0 1 2 1 1 2 0 0 2 0 0");              // not square
-    lines.push_back("sky_solve 0 2 2 1 0 1 1 1 1 2 0 1 1 1 2 0 0 2 0 0");                // b too short
-    lines.push_back("skyb_solve 1 1 1 1 0 1 0 0 1 1 0 1 1 2 1 0 0 1 0");                 // x0 too short (1 block needs 2 entries)
-    lines.push_back("inv_dense 2 4 1 2 3 4 3 0 0 0 2 0 0");                               // t too short
-    lines.push_back("cmk_check 0 2 3 1 0 1 1 1 1 2 0 1");                                 // not square
-    lines.push_back("qr_check 0 0 2 2 1 0 0 1 1 0 0 1 1 0 0");                            // too few entries
+    lines.push_back("direct_sky_solve 1 2 2 1 0 1 1 1 1 2 0 0 2 1 1 2 0 0 2 0 0");              // perm (0,0) is not a permutation
+    lines.push_back("direct_sky_solve 1 2 2 2 0 1 0 2 1 1 1 2 0 1 2 1 1 2 0 0 2 0 0");          // duplicate column in row 0
+    lines.push_back("direct_sky_solve 1 2 3 1 0 1 1 1 1 2 0 1 2 1 1 2 0 0 2 0 0");              // not square
+    lines.push_back("direct_sky_solve 0 2 2 1 0 1 1 1 1 2 0 1 1 1 2 0 0 2 0 0");                // b too short
+    lines.push_back("direct_skyb_solve 1 1 1 1 0 1 0 0 1 1 0 1 1 2 1 0 0 1 0");                 // x0 too short (1 block needs 2 entries)
+    lines.push_back("direct_inv_dense 2 4 1 2 3 4 3 0 0 0 2 0 0");                               // t too short
+    lines.push_back("direct_cmk_check 0 2 3 1 0 1 1 1 1 2 0 1");                                 // not square
+    lines.push_back("direct_qr_check 0 0 2 2 1 0 0 1 1 0 0 1 1 0 0");                            // too few entries
 }
 
 static void generate(Rng &rng, const Opts &o, std::vector<std::string> &lines) {
